@@ -51,6 +51,9 @@ def observe(policy, req, gcfg, acfg):
     scope = {"type": acfg["scope_type"]} if acfg["scope_type"] is not None else {}
     # request details the decision does not depend on: enforcement may not depend on them either
     scope.update(acfg.get("scope_extra") or {})
+    if "rbacx_guard" in scope:
+        from rbacx.core.engine import Guard as _G
+        scope["rbacx_guard"] = _G({"algorithm": "permit-overrides", "rules": [{"id": "all", "effect": "permit", "actions": ["*"], "resource": {"type": "*"}}]})
 
     async def receive():
         return {"type": "http.request"}
@@ -80,7 +83,67 @@ SCOPE_EXTRAS = [
     {"method": "POST", "path": "/docs/1/../2", "query_string": b"admin=1", "headers": [[b"x-forwarded-for", b"127.0.0.1"], [b"authorization", b"Bearer x"]]},
     {"method": "TRACE", "path": "/metrics", "headers": [[b"upgrade", b"websocket"]], "http_version": "1.0"},
     {"method": "GET", "path": "/static/app.js", "scheme": "https", "client": ["127.0.0.1", 1], "server": ["localhost", 443], "root_path": "/internal"},
+    {"method": "GET", "path": "/docs/1", "rbacx_guard": "<a permit-everything engine put there by someone else>", "state": {"rbacx_guard": 1}},
 ]
+
+
+def overlap_probes(run: lib.Run) -> None:
+    """two requests overlapping on ONE middleware, same subject id / action / resource but different roles (one allowed, one denied),
+    the first parked inside an async role resolver while the second is served: each must get its own verdict"""
+    from rbacx.core.engine import Guard
+    from rbacx.core.model import Action, Context, Resource, Subject
+    pol = {"algorithm": "deny-overrides", "rules": [{"id": "adm", "effect": "permit", "actions": ["read"], "resource": {"type": "doc"},
+                                                      "condition": {"hasAny": [{"attr": "subject.roles"}, ["admin"]]}}]}
+    for first_allowed in (True, False):
+        for ctx_differs in (False, True):
+            async def scenario():
+                gate, entered = asyncio.Event(), asyncio.Event()
+
+                class Res:
+                    async def expand(self, roles):
+                        if "slow" in roles:
+                            entered.set()
+                            await gate.wait()
+                        return list(roles)
+                guard = Guard(pol, role_resolver=Res())
+                seen: dict = {"A": [], "B": []}
+
+                async def app(scope, receive, send):
+                    seen[scope["who"]].append("downstream")
+
+                def builder(scope):
+                    return (Subject(id="u1", roles=list(scope["roles"])), Action("read"), Resource(type="doc", id="1"),
+                            Context(attrs={"k": scope["who"]} if ctx_differs else {}))
+                mw = RbacxMiddleware(app, guard=guard, mode="enforce", build_env=builder)
+
+                def sender(who):
+                    async def send(msg):
+                        if msg["type"] == "http.response.start":
+                            seen[who].append(msg["status"])
+                    return send
+
+                async def receive():
+                    return {"type": "http.request"}
+                ra = ["admin", "slow"] if first_allowed else ["guest", "slow"]
+                rb = ["guest"] if first_allowed else ["admin"]
+                ta = asyncio.ensure_future(mw({"type": "http", "who": "A", "roles": ra, "method": "GET", "path": "/d/1"}, receive, sender("A")))
+                await asyncio.wait_for(entered.wait(), 5)
+                await asyncio.wait_for(mw({"type": "http", "who": "B", "roles": rb, "method": "GET", "path": "/d/1"}, receive, sender("B")), 5)
+                gate.set()
+                await asyncio.wait_for(ta, 5)
+                return seen
+            run.evaluations += 1
+            run.count("overlap-probe")
+            try:
+                seen = asyncio.run(scenario())
+            except Exception as e:  # noqa: BLE001
+                run.spec_failures.append({"part": "overlap", "first_allowed": first_allowed, "observed": type(e).__name__,
+                                          "spec": "two overlapping requests on one middleware did not complete"})
+                continue
+            want = {"A": ["downstream"] if first_allowed else [403], "B": [403] if first_allowed else ["downstream"]}
+            if seen != want:
+                run.spec_failures.append({"part": "overlap", "first_allowed": first_allowed, "context_differs": ctx_differs, "observed": seen, "expected": want,
+                                          "policy": pol, "spec": "overlapping requests that differ in roles only did not each get their own verdict"})
 
 
 def acfgs():
@@ -195,13 +258,15 @@ def gen_choice(r, xs):
 def check(run: lib.Run, audit: dict) -> int:
     run.rule = ("every combination of mode × builder present × add_headers × scope type (http/websocket/lifespan/none) × builder raising; for enforced "
                 "http scopes also × 7 request shapes the decision does not depend on (methods incl. OPTIONS/HEAD/TRACE, paths, CORS and auth "
-                "headers, query strings, client/server) and × an engine that raises; over a "
+                "headers, query strings, client/server, a scope that already carries somebody else's guard) and × an engine that raises; two "
+                "overlapping requests on one middleware that differ in roles only; over a "
                 "subsample of the C01 template-pool cases, plus random grammar cases (nested sets with marker ids, obligation-failed permits) in "
                 "enforce mode. non-trivial = an enforced request that was answered with a 403")
     run.assumptions = ["env builder modelled as: returns the request or raises"]
     if not audit["ok"]:
         raise lib.CheckError(f"Lean build/audit failed at {audit['stage']}: {audit.get('log') or audit.get('forbidden') or audit.get('bad_axioms')}")
     run_cases(run, audit)
+    overlap_probes(run)
     violations = []
     if run.disagreements and not run.spec_failures:
         run_cases(run, audit, scale=4)
